@@ -120,6 +120,31 @@ theorem subconns_of_closed_child_shut_down (ops : List Op) (op : Op) :
     retiredClosed (run {} ops) (step (run {} ops) op).1 (step (run {} ops) op).2.1 = true :=
   (retiredClosed_iff _ _ _).mpr (stepOK_step _ (inv_run {} inv_init ops) op).retired
 
+/-- A NewSubConn call that is still inside the parent ClientConn (issued from the policy's own
+    goroutine) when its policy is swapped out, replaced or closed leaves no SubConn behind: in every
+    state, when the call returns for a policy that no longer has a role, the SubConn is shut down, the
+    policy gets an error and no role records the SubConn; for a policy that still has a role exactly the
+    registration happens (the monitor's `lateSubConnOk`). -/
+theorem late_subconn_of_closed_policy_shut_down (s : St) (sc : Nat) :
+    lateSubConnOk s sc (step s (.nsce sc)).2.1 = true ∧
+    (∀ id, (s.inflight.find? (·.1 = sc)) = some (sc, id) → curOrPend s id = false →
+      (step s (.nsce sc)).2.1 = [.sd sc, .nscErr id] ∧
+      (step s (.nsce sc)).1.current = s.current ∧ (step s (.nsce sc)).1.pending = s.pending) := by
+  constructor
+  · simp only [step, lateSubConnOk, nscEnd]
+    cases hf : s.inflight.find? (·.1 = sc) with
+    | none => rfl
+    | some p =>
+      obtain ⟨a, id⟩ := p
+      have hc : curOrPend { s with inflight := s.inflight.filter (·.1 ≠ sc) } id = curOrPend s id := rfl
+      simp only [hc]
+      cases curOrPend s id <;> simp
+  · intro id hf hcp
+    have hc : curOrPend { s with inflight := s.inflight.filter (·.1 ≠ sc) } id = false := hcp
+    simp only [step, nscEnd, hf]
+    rw [if_neg (by rw [hc]; simp)]
+    exact ⟨rfl, rfl, rfl⟩
+
 /-- Repeated switches: a pending policy that is replaced by a new switch is closed on the spot, with
     its SubConns, and no longer has a role. -/
 theorem replaced_pending_is_closed (ops : List Op) (name : Nat) (sc : Script) (p : BW)
